@@ -211,13 +211,15 @@ class _RedisConsumer(ConsumerT):
 
     def __mark_processing(self, msg_short_name: str, full_queue_name: str, pipe: Pipeline) -> None:
         pipe.zadd(self.broker.processing_queue, {msg_short_name: str(unix_time())})
+        full_message_name = full_message_name_from_short(msg_short_name, full_queue_name)
         pipe.hset(
-            full_message_name_from_short(msg_short_name, full_queue_name),
-            mapping={
-                "_reject_to": get_queue_marker(full_queue_name),
-                "_holder": self._holder_token,
-            },
+            full_message_name,
+            key="_reject_to",
+            value=get_queue_marker(full_queue_name),
         )
+        # only the consumer which really takes the message becomes its holder: a consumer which
+        # comes too late (see the check of the removal) must not overwrite the name of the winner
+        pipe.hsetnx(full_message_name, "_holder", self._holder_token)
 
     async def __get_message_name(
         self,
